@@ -47,8 +47,10 @@ func errorClass(msg string, tokAt string) string {
 	switch {
 	case has("unary expects"), has("invalid unary operator"):
 		return "unary"
+	case c03pArityRE.MatchString(msg):
+		return "arity" // assertArgTypes, argument count: modelled, blamed token (arg.Token()) not mirrored
 	case has(" takes ") && has("argument"), has("it has no return value") && !has("invalid declaration"):
-		return "-" // assertArgTypes
+		return "-" // assertArgTypes, argument types
 	case has("invalid binary operator"), has("mismatched type for"), has(`" takes num, string or array type`), has(`" takes num or array type`),
 		has(`array repetition ("*")`), has("takes num type, found"), has("takes num or string type"), has("takes bool type"):
 		return "binary"
@@ -92,6 +94,8 @@ func errorClass(msg string, tokAt string) string {
 	}
 	return ""
 }
+
+var c03pArityRE = regexp.MustCompile(`takes \d+ arguments?, found \d+$`)
 
 var c03pErrRE = regexp.MustCompile(`^line (\d+) column (\d+): (.*)$`)
 
@@ -171,7 +175,11 @@ var c03pTables = func() [3]SX {
 	var fs, gs, es []SX
 	for _, n := range fn {
 		f := b.Funcs[n]
-		fs = append(fs, Lst(Str(n), Bool(len(f.Params) == 0 && f.VariadicParam == nil)))
+		ar := SX(Int(int64(len(f.Params))))
+		if f.VariadicParam != nil {
+			ar = Sym("variadic")
+		}
+		fs = append(fs, Lst(Str(n), Bool(len(f.Params) == 0 && f.VariadicParam == nil), ar))
 	}
 	for _, n := range gl {
 		gs = append(gs, Str(n))
@@ -216,7 +224,7 @@ func c03pModelParse(model *Model, src string, g goParse) (modelParse, bool, erro
 	}
 	var oracle []SX
 	for _, e := range g.Errs {
-		if c := e.Class; c != "" && c != "-" {
+		if c := e.Class; c != "" && c != "-" && c != "arity" {
 			n, ok := left[[2]int{e.Line, e.Col}]
 			if !ok {
 				return modelParse{}, false, nil // blamed position is not a token: cannot build the oracle
@@ -272,6 +280,9 @@ func c03pCheck(src, stream string, model *Model, r *Result) string {
 		switch e.Class {
 		case "-":
 			dropped++
+			continue
+		case "arity":
+			impl = append(impl, [2]int{0, 0})
 			continue
 		case "":
 		default:
